@@ -20,6 +20,13 @@ theorem facs_ext (f1 : K → ℝ) (S U : Finset K) (x : K → ℝ) (e : ℝ) (hS
   intro k _ hk
   simp [hx k hk, Real.rpow_eq_pow]
 
+theorem lins_ext (w : K → K → ℝ) (b : K) (S U : Finset K) (x : K → ℝ) (hS : S ⊆ U)
+    (hx : ∀ k, k ∉ S → x k = 0) : LinS w b S x = LinS w b U x := by
+  unfold LinS
+  apply Finset.sum_subset hS
+  intro k _ hk
+  simp [hx k hk]
+
 variable (d1 r1 : K → K → ℝ) (f1 : K → ℝ)
 
 theorem ax_dims_empty : (∀ (b : K) (v : K → ℝ), ((LinS d1 (b) ((∅ : Finset K)) (v)) = (0 : ℝ))) := by simp [LinS]
@@ -109,5 +116,47 @@ theorem ax_facdiff_ratio : (∀ (P : Finset K) (u : K → ℝ) (Q : Finset K) (v
   intro P u Q v h
   unfold FacDiff
   exact div_mul_cancel₀ _ (ne_of_gt h)
+
+theorem ax_dims_add : (∀ (b : K) (P : Finset K) (u : K → ℝ) (Q : Finset K) (v : K → ℝ) (R : Finset K) (w : K → ℝ), (((∀ (k : K), ((w k) = ((u k) + (v k)))) ∧ (∀ (k : K), ((¬ (k ∈ R)) → ((w k) = (0 : ℝ)))) ∧ (∀ (k : K), ((¬ (k ∈ P)) → ((u k) = (0 : ℝ)))) ∧ (∀ (k : K), ((¬ (k ∈ Q)) → ((v k) = (0 : ℝ))))) → ((LinS d1 (b) (R) (w)) = ((LinS d1 (b) (P) (u)) + (LinS d1 (b) (Q) (v)))))) := by
+  intro b P u Q v R w h
+  obtain ⟨hw, hR, hP, hQ⟩ := h
+  have e1 := lins_ext d1 b R (P ∪ Q ∪ R) w (by intro x hx; simp only [Finset.mem_union]; tauto) hR
+  have e2 := lins_ext d1 b P (P ∪ Q ∪ R) u (by intro x hx; simp only [Finset.mem_union]; tauto) hP
+  have e3 := lins_ext d1 b Q (P ∪ Q ∪ R) v (by intro x hx; simp only [Finset.mem_union]; tauto) hQ
+  rw [e1, e2, e3]
+  unfold LinS
+  rw [← Finset.sum_add_distrib]
+  apply Finset.sum_congr rfl
+  intro k _
+  rw [hw k]
+  ring
+
+theorem ax_dims_sub : (∀ (b : K) (P : Finset K) (u : K → ℝ) (Q : Finset K) (v : K → ℝ) (R : Finset K) (w : K → ℝ), (((∀ (k : K), ((w k) = ((u k) - (v k)))) ∧ (∀ (k : K), ((¬ (k ∈ R)) → ((w k) = (0 : ℝ)))) ∧ (∀ (k : K), ((¬ (k ∈ P)) → ((u k) = (0 : ℝ)))) ∧ (∀ (k : K), ((¬ (k ∈ Q)) → ((v k) = (0 : ℝ))))) → ((LinS d1 (b) (R) (w)) = ((LinS d1 (b) (P) (u)) - (LinS d1 (b) (Q) (v)))))) := by
+  intro b P u Q v R w h
+  obtain ⟨hw, hR, hP, hQ⟩ := h
+  have e1 := lins_ext d1 b R (P ∪ Q ∪ R) w (by intro x hx; simp only [Finset.mem_union]; tauto) hR
+  have e2 := lins_ext d1 b P (P ∪ Q ∪ R) u (by intro x hx; simp only [Finset.mem_union]; tauto) hP
+  have e3 := lins_ext d1 b Q (P ∪ Q ∪ R) v (by intro x hx; simp only [Finset.mem_union]; tauto) hQ
+  rw [e1, e2, e3]
+  unfold LinS
+  rw [← Finset.sum_sub_distrib]
+  apply Finset.sum_congr rfl
+  intro k _
+  rw [hw k]
+  ring
+
+theorem ax_facprod_def : (∀ (P : Finset K) (u : K → ℝ) (Q : Finset K) (v : K → ℝ) (R : Finset K) (w : K → ℝ), (((∀ (k : K), ((w k) = ((u k) + (v k)))) ∧ (∀ (k : K), ((¬ (k ∈ R)) → ((w k) = (0 : ℝ)))) ∧ (∀ (k : K), ((¬ (k ∈ P)) → ((u k) = (0 : ℝ)))) ∧ (∀ (k : K), ((¬ (k ∈ Q)) → ((v k) = (0 : ℝ)))) ∧ (∀ (k : K), ((0 : ℝ) < (f1 (k))))) → ((FacS f1 (R) (w) ((1 : ℝ))) = ((FacS f1 (P) (u) ((1 : ℝ))) * (FacS f1 (Q) (v) ((1 : ℝ))))))) := by
+  intro P u Q v R w h
+  obtain ⟨hw, hR, hP, hQ, hpos⟩ := h
+  have e1 := facs_ext f1 R (P ∪ Q ∪ R) w 1 (by intro x hx; simp only [Finset.mem_union]; tauto) hR
+  have e2 := facs_ext f1 P (P ∪ Q ∪ R) u 1 (by intro x hx; simp only [Finset.mem_union]; tauto) hP
+  have e3 := facs_ext f1 Q (P ∪ Q ∪ R) v 1 (by intro x hx; simp only [Finset.mem_union]; tauto) hQ
+  rw [e1, e2, e3]
+  unfold FacS
+  rw [← Finset.prod_mul_distrib]
+  apply Finset.prod_congr rfl
+  intro k _
+  simp only [one_mul, hw k, Real.rpow_eq_pow]
+  exact Real.rpow_add (hpos k) (u k) (v k)
 
 end
